@@ -62,6 +62,7 @@ SPEC = dict(
         dict(family="vars", storer="inmemory", n=(60, 300), paths=(3, 5), calls=14, hostsets=True,
              label="YarnTrace: host writes through a host-supplied variable.InMemoryStorer")],
     nontrivial=lambda c: sum(1 for b in c["bodies"] for s in b if s["k"] == "set" and s["op"] != "=") >= 2,
+    scripts=dict(paths=(6, 30), calls=80, hostsets=True),
     rule="assignment histories over {=,+=,-=,*=,/=,%=} x {number, boolean, string, unset} current x assigned types with declare, "
          "interleaved with host writes of every type between Next calls (TLC enumerates every position and value of the host write); "
          "replayed on a recording storer wrapping variable.InMemoryStorer and on the harness's own one-map Storer; "
